@@ -155,12 +155,18 @@ def run_config(res, n, d, fc, sc, ks, queries, stats):
                 for x in chunk:
                     unsorted_call.setdefault(x, list(chunk))
                     call_form[x] = form
-        if len(chunk) == 1 and rng.random() < 0.5:
-            w.write(chunk[0] if form != 3 else np.uint64(chunk[0]), {"v": i})
-        elif rng.random() < 0.5:
-            w.write(sarg, {"v": vals})
-        else:
-            w.write(sarg, [{"v": v} for v in vals])
+        try:
+            if len(chunk) == 1 and rng.random() < 0.5:
+                w.write(chunk[0] if form != 3 else np.uint64(chunk[0]), {"v": i})
+            elif rng.random() < 0.5:
+                w.write(sarg, {"v": vals})
+            else:
+                w.write(sarg, [{"v": v} for v in vals])
+        except Exception as e:  # noqa
+            res.violation("write-of-new-indices-refused", "a write of indices that were never written raises",
+                          {"n": n, "d": d, "fc": fc, "sc": sc, "k": chunk[0], "call": list(chunk), "call_form": form if len(chunk) >= 2 else 0,
+                           "arg_types": arg_types, "prefix": PREFIX}, "accepted", repr(e)[:200])
+            return sorted(walk_samples(top)[1])
         i += len(chunk)
     where, files = walk_samples(top)
     fileset = set(files)
